@@ -1082,6 +1082,33 @@ func autoTableLayout(context *layoutContext, box_ Box, containingBlock bo.Point)
 			}
 		}
 	}
+	// The widths above may honour percentages at the expense of the content:
+	// no column is narrower than its min-content width. What the narrow
+	// columns need is taken from the room the others have above theirs.
+	var deficit, surplus pr.Float
+	for i, w := range table.ColumnWidths {
+		if min := tmp.columnMinContentWidths[i]; w < min {
+			deficit += min - w
+		} else {
+			surplus += w - min
+		}
+	}
+	if deficit > 0 {
+		ratio := pr.Float(1)
+		if surplus > 0 {
+			ratio = pr.Min(1, deficit/surplus)
+		}
+		for i, w := range table.ColumnWidths {
+			if min := tmp.columnMinContentWidths[i]; w < min {
+				table.ColumnWidths[i] = min
+			} else {
+				table.ColumnWidths[i] = w - (w-min)*ratio
+			}
+		}
+		if deficit > surplus {
+			table.Width = table.Width.V() + deficit - surplus
+		}
+	}
 }
 
 // Find the width of each column and derive the wrapper width.
